@@ -27,6 +27,7 @@ KINDS = {
     42: 'state of an account that did not call the system contract changed (attribution)',
     43: 'the native effect differs from the arguments passed to the system contract',
     44: 'total supply changed, or balances no longer add up to it',
+    45: 'coins burned by a slash did not arrive at the fee collector',
 }
 
 EVK = ['Delegated', 'Undelegated', 'Redelegated', 'Withdrew', 'Voted', 'VotedWeighted']
@@ -192,7 +193,7 @@ def astep_term(nm, env, st, o):
         vres = coq_list(['(%s, %s)' % (nm.b(v), coq_option(nat(i)) if i >= 0 else 'None') for v, i in sorted((o.get('vres') or {}).items())])
         kind = 0
     else:
-        tx, vres, kind = DUMMY_TX, '[]', 1
+        tx, vres, kind = DUMMY_TX, '[]', (2 if st['t'] == 'slash' else 1)
     return ('{| a_kind := %s; a_tx := %s; a_vres := %s; a_pre := %s; a_post := %s; a_class := %s; a_logs := %s |}' % (
         nat(kind), tx, vres, snap_term(nm, o['pre']), snap_term(nm, o['post']), nat(o['class']),
         coq_list([log_term(nm, l) for l in (o.get('logs') or [])])))
